@@ -179,6 +179,11 @@ func verifH_C11_pingslot() {
 // toOffline, failed by its own write, or refused once the reconnect failed.
 func verifH_C11_offlinerace() {
 	verifPreempt(verifParam("preempt", 0))
+	if verifParam("preempt", 0) > 0 {
+		// a preempted goroutine may be left waiting while a poller spins: such unfair
+		// schedules are cut at the unwinding bound (wedges are C10's subject)
+		verifOnUnwind(1)
+	}
 	c := verifNewClient(&verifStore{}, &Config{})
 	conn := &verifConn{slow: true}
 	verifGoOnline(c, conn)
